@@ -32,10 +32,7 @@ import (
 
 // ------------------------------------------------------------------ part P: one real scheduling pass
 
-const (
-	kfNodes    = "dynamic-pool-nodes-limit-not-decremented-within-a-pass"
-	kfOverride = "offering-capacity-override-above-base-capacity"
-)
+const kfOverride = "offering-capacity-override-above-base-capacity"
 
 type pcase struct {
 	Kind      string             `json:"kind"`
@@ -89,9 +86,15 @@ func runP(c *kit.Ctx, r *kit.Rand, mode int) {
 	cp := fake.NewCloudProvider()
 
 	// catalog: 2-4 sizes; mode 2 adds an offering whose CapacityOverride raises cpu above the base
+	// mode 3 = corpus: the history of F11 (fixed by 1e4ed4d16): one 2-cpu type, limits.nodes = 2, no nodes,
+	// four mutually anti-affine pods in one batch
+	corpus := mode == 3
 	sizes := []int64{1, 2, 4, 8, 16}
 	nIT := r.Range(2, 4)
 	start := r.Intn(len(sizes) - nIT + 1)
+	if corpus {
+		nIT, start = 1, 1
+	}
 	var catalog []*cloudprovider.InstanceType
 	var jcat []pIT
 	for i := 0; i < nIT; i++ {
@@ -124,6 +127,9 @@ func runP(c *kit.Ctx, r *kit.Rand, mode int) {
 	if mode == 1 || (mode == 0 && r.Chance(1, 4)) {
 		limits["nodes"] = *resource.NewQuantity(int64(r.Range(0, 4)), resource.DecimalSI)
 	}
+	if corpus {
+		limits = corev1.ResourceList{"nodes": *resource.NewQuantity(2, resource.DecimalSI)}
+	}
 	np := test.NodePool(v1.NodePool{ObjectMeta: metav1.ObjectMeta{Name: "pool"}, Spec: v1.NodePoolSpec{Limits: v1.Limits(limits)}})
 	kit.Apply(ctx, cl, np)
 
@@ -132,6 +138,9 @@ func runP(c *kit.Ctx, r *kit.Rand, mode int) {
 
 	// launched (in-flight) NodeClaims of the pool, some of them already deleting
 	nExisting, nDeleting := r.Intn(3), 0
+	if corpus {
+		nExisting = 0
+	}
 	for i := 0; i < nExisting; i++ {
 		it := kit.Pick(r, catalog)
 		nc := test.NodeClaim(v1.NodeClaim{
@@ -149,11 +158,17 @@ func runP(c *kit.Ctx, r *kit.Rand, mode int) {
 
 	// pod batch
 	nPods := r.Range(1, 5)
-	anti := mode == 1 || r.Chance(1, 2)
+	anti := mode == 1 || corpus || r.Chance(1, 2)
+	if corpus {
+		nPods = 4
+	}
 	var pods []*corev1.Pod
 	var jpods []string
 	for i := 0; i < nPods; i++ {
 		cpuReq := kit.Pick(r, []string{"100m", "500m", "900m", "1500m", "3", "6"})
+		if corpus {
+			cpuReq = "1"
+		}
 		opts := test.PodOptions{ObjectMeta: metav1.ObjectMeta{Name: fmt.Sprintf("p%d", i), UID: types.UID(fmt.Sprintf("uid-p%d", i))},
 			ResourceRequirements: corev1.ResourceRequirements{Requests: corev1.ResourceList{corev1.ResourceCPU: resource.MustParse(cpuReq)}}}
 		if anti {
@@ -252,9 +267,6 @@ func runP(c *kit.Ctx, r *kit.Rand, mode int) {
 	}
 	kf := ""
 	switch {
-	case len(exceeded) == 1 && exceeded[0] == "nodes" && len(gclaims) >= 2:
-		kf = kfNodes
-		c.Count("P:oracle:nodes-limit-exceeded(known finding shape)")
 	case len(exceeded) > 0 && overrideLaunched && !lo.Contains(exceeded, "nodes"):
 		kf = kfOverride
 		c.Count("P:oracle:override-exceeds(known finding shape)")
@@ -307,6 +319,7 @@ func partP(c *kit.Ctx) int {
 	if c.Thorough() {
 		n = 2000
 	}
+	runP(c, c.Rand.Fork(), 3) // corpus first
 	for i := 0; i < n; i++ {
 		runP(c, c.Rand.Fork(), i%3)
 	}
